@@ -79,6 +79,8 @@ def b2s(b):
 def impl_loc_op(line):
     tk = Toks(line.split())
     op = tk.next()
+    # g<op>: the same real-library call; the model driver answers it with the GENERATED kernels (Gen/Kernels.lean)
+    op = {"gp2r": "p2r", "gr2p": "r2p", "grelint": "relint"}.get(op, op)
 
     def go():
         if op == "mk":
